@@ -372,6 +372,25 @@ def run(report):
     items = [(_aug_shard, (i, ns, switches)) for i in range(ns)]
     items += [(_pattern_shard, (i, ns, quick)) for i in range(ns)]
     items += [(_deep_shard, (env.sub_seed(report.seed, "C13", i), 40 if quick else 2500)) for i in range(env.NPROC)]
+    from .. import hosts
+    others = hosts.available_other_hosts()
+    cases = []
+    skip_kinds = {"inplace_ni": "inplace-returns-notimplemented", "list_reflected": "sequence-inplace-with-reflected-operand"}
+    for i, (tag, src, nt, kind) in enumerate(aug_cases()):
+        if skip_kinds.get(kind) in switches:
+            continue
+        if i % (4 if quick else 1) == 0:
+            cases.append((src, [env.ALL_CFGS[i % 8]]))
+    for tag, src, nt in chained_cases():
+        cases.append((src, [env.ALL_CFGS[len(cases) % 8]]))
+    for i, (tag, stmt, names, nt) in enumerate(pattern_cases()):
+        if i % (40 if quick else 5) == 0:
+            cases.append((case_program(stmt, names, ("module", "function", "class")[i % 3]), [env.ALL_CFGS[i % 8]]))
+    for h in others:
+        for k in range(3):
+            items.append((hosts.host_shard, (h, cases[k::3], {}, "stores differ")))
+    report.extra["other_hosts"] = others
+    report.extra["host_cases_per_host"] = len(cases)
     for part in env.pmap(_call, items):
         report.absorb(part)
     report.exhaustive = True
